@@ -44,6 +44,7 @@ type Gen struct {
 	globalDistinct []string
 	extraDecls  []string
 	retDeclared map[string]bool
+	funcIDs     map[string]int
 	effects     map[*ssa.Function]map[string]bool
 	Funcs       map[string]*ssa.Function // contract key -> function
 	Unsupported map[string][]string      // function key -> reasons
@@ -422,6 +423,19 @@ func (g *Gen) indexAnon(f *ssa.Function) {
 		g.Funcs[FuncKey(an)] = an
 		g.indexAnon(an)
 	}
+}
+
+// FuncID: a number that identifies a named function used as a value (strings.TrimLeftFunc(s, unicode.IsSpace))
+func (g *Gen) FuncID(key string) int {
+	if g.funcIDs == nil {
+		g.funcIDs = map[string]int{}
+	}
+	if id, ok := g.funcIDs[key]; ok {
+		return id
+	}
+	id := 100000 + len(g.funcIDs)
+	g.funcIDs[key] = id
+	return id
 }
 
 func (g *Gen) Family(name, sort string) string {
